@@ -123,17 +123,21 @@ def feed(drv, atoms, calc, rng, scheme, v, how):
         vv = np.broadcast_to(np.asarray(v, dtype=float), (n, 3))
         x = rng.uniform(0.5, 2.0, (n, 3)) * rng.choice([-1.0, 1.0], (n, 3))
         comm = np.stack([x * (1 + vv), x * (1 - vv)])  # |v| <= 1: std = |x| v, mean|.| = |x|
-        calc.extra = {"forces_comm": comm}
+        # the committee as an array, or as the plain list / tuple of per-member arrays a committee assembled from several
+        # ordinary calculators hands over
+        shape_kind = int(rng.integers(0, 3))
+        calc.extra = {"forces_comm": comm if shape_kind == 0 else ([m for m in comm] if shape_kind == 1 else tuple(m.tolist() for m in comm))}
         atoms.positions += 1e-3  # invalidate the cache so results are rebuilt
         atoms.get_potential_energy()
-        c = atoms.calc.results["forces_comm"]
+        c = np.asarray(atoms.calc.results["forces_comm"], dtype=float)
         return np.std(c, axis=0) / np.mean(np.abs(c), axis=0)
     e0 = float(rng.normal())
     dd = float(v) * n
-    calc.extra = {"energies": np.array([e0 + dd, e0 - dd])}
+    es = np.array([e0 + dd, e0 - dd])
+    calc.extra = {"energies": es if rng.random() < 0.5 else es.tolist()}
     atoms.positions += 1e-3
     atoms.get_potential_energy()
-    return float(np.std(atoms.calc.results["energies"])) / n
+    return float(np.std(np.asarray(atoms.calc.results["energies"], dtype=float))) / n
 
 
 def vclass(v, ref):
